@@ -34,6 +34,8 @@ def cases(draw, ncalls=3, p=None):
     prog["placed"] = draw(S.decorate(prog, abi=True, rename=False, disable=False, density=5)) if draw(st.integers(0, 2)) == 0 else []
     e2e.add_support_methods(prog)
     plan = e2e.plan_calls(draw, prog, ncalls)
+    if draw(st.integers(0, 2)) == 0:
+        prog["holder"] = e2e.plan_holder(draw)       # a stored callback (fired after the call that received it, released with its holder)
     return prog, plan
 
 
@@ -142,6 +144,8 @@ def evaluate(art, work, prog, plan, **kw):
             fails.append(("calls", "Rust logged %d invocations for %d calls" % (len(logs), len(exp_logs))))
         fails += e2e.callback_fails(prog, plan, lines)
         fails += e2e.drop_fails(prog, plan, lines)
+        if prog.get("holder"):
+            fails += e2e.holder_fails(prog["holder"], lines)
         for mid, cs in csize.items():
             if mid in rsize and rsize[mid] != cs:
                 fails.append(("layout", "method %s: C's result/option type has size %s, the type the proc macro returns has size %s" % (mid, cs, rsize[mid])))
